@@ -35,7 +35,8 @@ class RoundTrip(Harness):
     @property
     def bounds(self):
         return ("dialect %s, shape %s, one %s leaf of size %d (string: every string of that length over '%s'; int: "
-                "|i| <= 10^n; float: positional repr text with n digits), encoder configuration %s, reader %s" % (
+                "|i| <= 10^n; float: positional repr text with n digits; t:<kind>:<zone>:<precision>: every valid "
+                "date/time/datetime with that zone and precision), encoder configuration %s, reader %s" % (
                     self.dialect, self.shape, self.leaf, self.n, rt.ALPHA[self.dialect], self.cfg, self.reader))
 
     def inputs(self, ctx):
@@ -83,10 +84,18 @@ def plan(tier):
     for shape in ("single", "seq", "set", "quant", "group"):
         out.append((shape, "int", 3 if quick else 6, "default"))
         out.append((shape, "float", 4 if quick else 6, "default"))
+    for shape in ("single", "seq", "group"):
+        out.append((shape, "t:date:naive:zero", 0, "default"))
+        for tz in ("naive", "utc", "offset"):
+            out.append((shape, "t:time:%s:ms" % tz, 0, "default"))
+            if shape == "single" or not quick:
+                out.append((shape, "t:datetime:%s:ms" % tz, 0, "default"))
+        out.append((shape, "t:time:utc:any", 0, "default"))
+    out.append(("single", "t:datetime:utc:ms", 0, "noz"))
     for cfg in list(rt.CONFIGS) + list(rt.PVL_ONLY) + list(rt.PDS_ONLY):
         if cfg == "default":
             continue
-        for shape in ("group", "wrapseq", "wrapstr", "grouponly", "nested"):
+        for shape in ("group", "wrapseq", "wrapquote", "wrapstr", "grouponly", "nested"):
             out.append((shape, "str", 1, cfg))
             if not quick:
                 out.append((shape, "str", 2, cfg))
